@@ -401,7 +401,9 @@ def jobs_for(prop, tier):
         return jobs_c05(tier) + [j for j in jobs_option_below(tier) if j[1][3] in ('num', 'localindex')]
     if prop == 'C09':
         return jobs_c09(tier) + [j for j in jobs_option_below(tier) if j[1][3] in ('rpad', 'rpad_and_clip')]
-    return {'C01': jobs_c01, 'C03': jobs_c03, 'C05': jobs_c05, 'C09': jobs_c09}.get(prop, lambda t: [])(tier)
+    if prop == 'C07':
+        return [j for j in jobs_option_below(tier) if j[1][3] == 'combinations']
+    return {'C01': jobs_c01, 'C03': jobs_c03, 'C04': jobs_c04, 'C05': jobs_c05, 'C09': jobs_c09}.get(prop, lambda t: [])(tier)
 
 
 # ------------------------------------------------------------------------------------------------ C01: getitem_next of list nodes
@@ -875,6 +877,8 @@ BELOW_METHODS = {   # name -> (mangled method with args, slot fragment, extra le
     'localindex': ('10localindexEll', '10localindexEll', ()),
     'rpad': ('4rpadElll', '4rpadElll', (3,)),
     'rpad_and_clip': ('13rpad_and_clipElll', '13rpad_and_clipElll', (3,)),
+    'combinations': ('12combinationsElbRKSt10shared_ptrISt6vectorINSt7__cxx1112basic_stringIcSt11char_traitsIcESaIcEEESaIS8_EEERKSt3mapIS8_S8_St4lessIS8_ESaISt4pairIKS8_S8_EEEll',
+                     '12combinationsElb', 'combinations'),
 }
 
 
@@ -914,13 +918,30 @@ def h_option_below(cls, pattern, variant, meth):
         head = lambda model, lc: 'unmasked '
         which = lambda model: list(range(n))
     nc.m.record('ret', {})
-    out = nc.m.call('_ZNK7awkward%s%s' % (short, mm), [Ptr('ret', 0), this] + [BV(x) for x in extra] + [BV(1), BV(0)])
+    if meth == 'combinations':
+        rl = nc.m.record('recordlookup', {0: (NULL, 8), 8: (NULL, 8)}, const=True)
+        pc_ = {}
+        nc.empty_map(pc_, 0, 'noparams')
+        pm = nc.m.record('noparams', pc_, const=True)
+        args = [BV(2), z3.BitVecVal(0, 1), rl, pm, BV(1), BV(0)]
+    else:
+        args = [BV(x) for x in extra] + [BV(1), BV(0)]
+    sym = '_ZNK7awkward%s%s' % (short, mm)
+    if meth == 'combinations':          # substitution numbers in the mangled name differ between template and plain classes: find it by prefix
+        cands = [f for mod_ in nc.m.eng.mods for f in mod_.func_src if f.startswith('_ZNK7awkward%s12combinationsElb' % short)]
+        if not cands:
+            raise Unsupported('combinations of %s not found in the IR' % cls)
+        sym = cands[0]
+    out = nc.m.call(sym, [Ptr('ret', 0), this] + args)
     obls = [('%s does not raise' % meth, out.raised)]
     calls = [(pc, a) for pc, nm, a in out.trace if nm == meth]
     obls.append(('the content is asked', z3.Not(z3.Or([pc for pc, _ in calls] + [z3.BoolVal(False)]))))
     for pc, a in calls:
-        want_args = list(extra) + [1, 0]
-        obls.append(('the content receives the same request (same axis, same depth)', z3.And(pc, z3.Or([x != w for x, w in zip(a, want_args)]))))
+        if meth == 'combinations':
+            obls.append(('the content receives the same request (n, replacement, axis, depth)', z3.And(pc, z3.Or(a[0] != 2, a[1] != 0, a[4] != 1, a[5] != 0))))
+        else:
+            want_args = list(extra) + [1, 0]
+            obls.append(('the content receives the same request (same axis, same depth)', z3.And(pc, z3.Or([x != w for x, w in zip(a, want_args)]))))
     want = [NONE if pattern[i] else Elem(F(atom(i))) for i in range(n)]
     for g, res in nodeh.decode_cases(nc, out.mem, nc.m.cell('ret', 0)):
         if res is None:
@@ -934,9 +955,10 @@ def h_option_below(cls, pattern, variant, meth):
         if lc > 60:
             return False, 'content too long to replay', dict(index=iv)
         h2, inner = inner_lists(lc)
-        ref = {'num': lambda l: len(l), 'localindex': lambda l: list(range(len(l))), 'rpad': lambda l: py_pad(l, 3, False, None), 'rpad_and_clip': lambda l: py_pad(l, 3, True, None)}[meth]
+        import itertools as _it
+        ref = {'combinations': lambda l: [{'0': a_, '1': b_} for a_, b_ in _it.combinations(l, 2)], 'num': lambda l: len(l), 'localindex': lambda l: list(range(len(l))), 'rpad': lambda l: py_pad(l, 3, False, None), 'rpad_and_clip': lambda l: py_pad(l, 3, True, None)}[meth]
         exp = [None if v < 0 else ref(inner[v]) for v in iv]
-        op = {'num': 'num 1', 'localindex': 'localindex 1', 'rpad': 'rpad 3 1', 'rpad_and_clip': 'rpadclip 3 1'}[meth]
+        op = {'combinations': 'combinations 2 0 1', 'num': 'num 1', 'localindex': 'localindex 1', 'rpad': 'rpad 3 1', 'rpad_and_clip': 'rpadclip 3 1'}[meth]
         return akrun_check(h2 + head(model, lc) + op, exp, '%s (valid entries -> content %s)::%s(axis=1)' % (cls, iv, meth))
     return mdischarge(nc.m, '%s::%s below the node, pattern=%s variant=%s' % (cls, meth, ''.join('N' if p else 'v' for p in pattern), variant), obls, [], replay=replay,
                       prefer=[nc.lencontent <= 8], extra=dict(bounds='%d entries, missing pattern concrete (case split), index / mask byte values symbolic' % n))
@@ -944,7 +966,7 @@ def h_option_below(cls, pattern, variant, meth):
 
 def jobs_option_below(tier):
     js = []
-    pats = [(0, 1, 0), (1, 0, 0, 1)] if tier == 'quick' else [p for k in (1, 2, 3, 4) for p in itertools.product((0, 1), repeat=k)]
+    pats = [(0, 1, 0), (1, 0, 0, 1), (0, 0, 0), (1, 1)] if tier == 'quick' else [p for k in (1, 2, 3, 4) for p in itertools.product((0, 1), repeat=k)]
     for meth in BELOW_METHODS:
         for p in pats:
             js.append((h_option_below, ('IndexedOptionArray64', p, None, meth), 600))
@@ -953,4 +975,84 @@ def jobs_option_below(tier):
             for vw, lsb in ((True, True), (False, False)) if tier == 'quick' else itertools.product((True, False), repeat=2):
                 js.append((h_option_below, ('BitMaskedArray', p, (vw, lsb), meth), 600))
         js.append((h_option_below, ('UnmaskedArray', (0, 0, 0), None, meth), 600))
+    return js
+
+
+# ------------------------------------------------------------------------------------------------ C04: list re-alignment for broadcasting
+@guard
+def h_broadcast_tooffsets(cls, dims, counts):
+    """broadcast_tooffsets64(offsets): re-cutting a list node to the (zero-based) offsets of the deeper argument: lists of equal length align
+    element for element, a length-1 regular dimension repeats its element, lists of different lengths at the same position raise"""
+    counts = list(counts)
+    lens0 = node_lens(cls, dims)
+    nc = NodeCtx(['LOA', 'LA', 'RA', 'IDX', 'CNT', 'UTL', 'KD', 'IDS'], [], unwind=max(10, sum(counts) + sum(lens0) + len(counts) + 8))
+    this, lists, starts, offs, short = list_node(nc, cls, dims)
+    arr = z3.K(z3.BitVecSort(64), BV(0))
+    acc, tv = 0, [0]
+    for c in counts:
+        acc += c; tv.append(acc)
+    for i, v in enumerate(tv):
+        arr = z3.Store(arr, BV(i), BV(v))
+    tdata = nc.m.array('target_offsets', ('i', 64), len(tv), const=True, arr=arr)
+    cells = {}
+    nc.index_cells(cells, 0, tdata, BV(0), BV(len(tv)))
+    tgt = nc.m.record('target', cells, const=True)
+    nc.m.record('ret', {})
+    out = nc.m.call('_ZNK7awkward%s21broadcast_tooffsets64ERKNS_7IndexOfIlEE' % short, [Ptr('ret', 0), this, tgt])
+    size1 = cls == 'RegularArray' and dims[0] == 1
+    if len(counts) != len(lens0):
+        should_raise = True
+    elif size1:
+        should_raise = False
+    else:
+        should_raise = any(c != L for c, L in zip(counts, lens0))
+    obls = [('raises exactly when some list does not have the length the target asks for', z3.simplify(out.raised) != z3.BoolVal(should_raise))]
+    if not should_raise:
+        want = [[lst[0]] * c for lst, c in zip(lists, counts)] if size1 else lists
+        for g, res in nodeh.decode_cases(nc, out.mem, nc.m.cell('ret', 0)):
+            if res is None:
+                obls.append(('a result is returned', z3.And(g, z3.Not(out.raised))))
+            else:
+                obls += [(nm, z3.And(g, z3.Not(out.raised), c)) for nm, c in compare(value(res), want)]
+    def replay(model, ent):
+        lc = model.eval(nc.lencontent, model_completion=True).as_signed_long()
+        if lc > 200:
+            return False, 'content too long to replay (%d)' % lc, {}
+        head, inp = node_program(nc, model, lc)
+        prog = head + 'broadcast %s' % fullnative.ints(tv)
+        kind, got = fullnative.akrun(prog)
+        payload = dict(program=prog, native=[kind, got])
+        if should_raise:
+            if kind != 'ERR':
+                return True, '%s %s re-cut to counts %s: list lengths differ, but the native library returns %s %s' % (cls, inp, counts, kind, str(got)[:150]), payload
+            return False, 'native library raises', payload
+        exp = [[lst[0]] * c for lst, c in zip(inp, counts)] if size1 else inp
+        if kind != 'OK' or got != exp:
+            return True, '%s %s re-cut to counts %s: native library %s %s, expected %s' % (cls, inp, counts, kind, str(got)[:150], exp), payload
+        return False, 'native library agrees (%s)' % (got,), payload
+    return mdischarge(nc.m, '%s::broadcast_tooffsets64 shape=%s counts=%s' % (cls, ','.join(map(str, dims)), ','.join(map(str, counts))), obls, [], replay=replay,
+                      prefer=[nc.lencontent <= 24] + [o <= 20 for o in offs],
+                      extra=dict(bounds='shape %s and target counts %s concrete (case split), origins symbolic' % (dims, counts)))
+
+
+def jobs_c04(tier):
+    js = []
+    L = 3 if tier == 'quick' else 4
+    for cls in ('ListOffsetArray64', 'ListArray64'):
+        for lens in ([(2, 0, 1), (1, 1)] if tier == 'quick' else [l for n in (1, 2, 3) for l in itertools.product(range(3), repeat=n)]):
+            js.append((h_broadcast_tooffsets, (cls, lens, lens), 600))
+            for i in range(len(lens)):
+                for d in (-1, 1):
+                    c = list(lens); c[i] += d
+                    if c[i] >= 0:
+                        js.append((h_broadcast_tooffsets, (cls, lens, tuple(c)), 600))
+            # same total, different split
+            if len(lens) >= 2 and lens[0] > 0:
+                c = list(lens); c[0] -= 1; c[1] += 1
+                js.append((h_broadcast_tooffsets, (cls, lens, tuple(c)), 600))
+    for length in (1, 2, 3):
+        for counts in itertools.product(range(L), repeat=length):
+            js.append((h_broadcast_tooffsets, ('RegularArray', (1, length), counts), 600))
+        js.append((h_broadcast_tooffsets, ('RegularArray', (2, length), (2,) * length), 600))
+        js.append((h_broadcast_tooffsets, ('RegularArray', (2, length), (2,) * (length - 1) + (1,)), 600))
     return js
